@@ -87,7 +87,9 @@ func runPostExec(r *hk.Run, e *env, rng *hk.Rand, n int) {
 
 func runH2C(r *hk.Run, e *env) {
 	type st struct{ enable, allow bool }
-	read := func(c *req.Client) st { return st{c.GetTransport().Options.EnableH2C, c.GetTransport().VerifH2AllowHTTP()} }
+	read := func(c *req.Client) st {
+		return st{c.GetTransport().Options.EnableH2C, c.GetTransport().VerifH2AllowHTTP()}
+	}
 	check := func(prog string, c *req.Client, want st) {
 		if got := read(c); got != want {
 			r.Fail(hk.Failure{Sig: "h2c:clone-state", What: "EnableH2C / http2 AllowHTTP of a client differ from what its own history of EnableH2C / DisableH2C / Clone prescribes",
